@@ -7,7 +7,8 @@ Inductive case :=
 | CS2R (a : Z) (impl : obs Z)                                  (* snes_to_rom(a) *)
 | CRound (o : Z) (mode : romtype) (impl : obs Z)               (* snes_to_rom(rom_to_snes(o, mode)) *)
 | CLong (base p : Z) (impl : obs bytes)                        (* long_low_rom_pointer(base)(p) *)
-| CRel (base : Z) (v : bytes) (impl : obs Z).                  (* base_relative_16bits_pointer_formula(base)(v) *)
+| CRel (base : Z) (v : bytes) (impl : obs Z)                   (* base_relative_16bits_pointer_formula(base)(v) *)
+| CBus (o : Z) (mode : romtype) (impl : obs (option Z)).       (* the assembler's own bus: get_address(rom_to_snes(o, mode)).physical *)
 
 (** Independent specification: the textbook address of a file offset. *)
 Definition textbook (o : Z) (mode : romtype) : Z :=
@@ -49,6 +50,9 @@ Definition spec_ok (c : case) : bool :=
       | b0 :: b1 :: _ => match impl with OOk x => x =? b0 + 256 * b1 + base | _ => false end
       | _ => true
       end
+  | CBus o mode impl =>
+      (* "the address whose mapped file offset is that offset": asked of the live mapping the assembler uses *)
+      negb (in_range o mode) || match impl with OOk (Some p) => p =? o | _ => false end
   end.
 
 Definition check (c : case) : bool * bool :=
@@ -59,6 +63,7 @@ Definition check (c : case) : bool * bool :=
     | CRound o mode impl => agree Z.eqb (Ok (snes_to_rom (rom_to_snes o mode))) impl
     | CLong base p impl => agree bytes_eqb (long_low_rom_pointer base p) impl
     | CRel base v impl => agree Z.eqb (base_relative_16bits_pointer base v) impl
+    | CBus _ _ _ => true     (* the live bus is regenerated from the implementation itself (C20_live ties it to the spec) *)
     end in
   (corr, spec_ok c).
 
